@@ -4,7 +4,7 @@ from collections import deque
 import math
 from mcx.harness import *  # noqa
 from mcx.common import Report, pmap, seed
-from tradingenv.contracts import ETF, ES, FutureChain
+from tradingenv.contracts import ETF, ES, FutureChain, Index
 
 LEVEL = "model_checking"
 NAN = float("nan")
@@ -13,8 +13,9 @@ B = ETF("B")
 F1 = ES(2021, 3)
 F2 = ES(2021, 6)
 CHAIN = FutureChain(contracts=[F1, F2])
-KEYS = [A, B, F1, F2, CHAIN]
-KEYNAMES = ["A", "B", "F1", "F2", "CHAIN"]
+A_IDX = Index("A")     # another asset class carrying the SAME symbol: contracts are identified by their symbol
+KEYS = [A, B, F1, F2, CHAIN, A_IDX]
+KEYNAMES = ["A", "B", "F1", "F2", "CHAIN", "Index(A)"]
 CLOCKS = [F1.last_trading_date - timedelta(days=1), F1.last_trading_date, F1.last_trading_date + timedelta(days=1)]
 PAIRS = [[(10.0, 10.0), (10.0, 12.0), (7.0, 8.0)],
          [(64.0, 64.0), (64.0, 65.0), (31.0, 33.0)],
@@ -110,8 +111,8 @@ def same(a, b):
 def compare(ex, books, now):
     """All query forms against the reference."""
     msgs = []
-    query_keys = [A, B, "A", "B", F1, F2, CHAIN]
-    names = ["A", "B", "'A'", "'B'", "F1", "F2", "CHAIN"]
+    query_keys = [A, B, "A", "B", F1, F2, CHAIN, A_IDX]
+    names = ["A", "B", "'A'", "'B'", "F1", "F2", "CHAIN", "Index(A)"]
     exp = []
     for key, name in zip(query_keys, names):
         sym = resolve(key, now)
